@@ -146,4 +146,84 @@ def reportedHigh (c : Case) (vb : Vb) : Nat :=
   | .missing vbs => if vbs.contains vb then 0 else trueHigh c vb
   | _ => trueHigh c vb
 
+/-! ## the FILE back end when the file exists
+
+metadata/file_metadata.go Load l.31-52: `os.ReadFile` succeeds → `state.UnmarshalJSON(file)`, `exist = true`: the
+file's whole map AS IT IS, whatever vBuckets it names; `vbIds` (the assignment) is only used when the file does
+not exist (then: one empty document per ASSIGNED vBucket, `exist = false` – that case is `mdLoad` / `start` above).
+
+The harness writes the file iff the case has stored documents, so "the file exists" = the metadata type is
+`file` and `st.store` is non-empty; `st.store` then IS the file's map (keys = the vBuckets the file names; an
+association list is read through `AMap.get?`, i.e. as the map it stands for).
+-/
+
+/-- the file back end found its file (file_metadata.go l.32 `err == nil`) -/
+def fileExists (c : Case) : Bool := c.metaType == "file" && !c.st.store.isEmpty
+
+/-- the vBuckets the file names: assigned or not -/
+def fileKeys (s : St) : List Vb := s.store.map (·.1)
+
+/-- the document the file holds for `vb` -/
+def fileDoc (s : St) (vb : Vb) : Doc := (s.store.get? vb).getD Doc.zero
+
+/-- `latestSeqNo, _ := seqNoMap.Load(vbID)` (checkpoint.go l.175): absent = 0 -/
+def seenHigh (s : St) (vb : Vb) : Nat := (s.high.get? vb).getD 0
+
+/-- `checkpoint.Load` behind an existing file: `exist = true`, so never the auto-reset branch (l.138);
+    l.173-197 `dump.Range` walks EVERY vBucket of the file: `doc.Checkpoint.SeqNo > latestSeqNo` → panic (`none`),
+    otherwise one offset per vBucket OF THE FILE.  The assignment (`s.vbIds`) is not looked at. -/
+def loadFile (s : St) : Option (AMap Offset) :=
+  if (fileKeys s).any (fun vb => (fileDoc s vb).seq > seenHigh s vb) then none
+  else some ((fileKeys s).map fun vb => (vb, (fileDoc s vb).toOffset (initLatest s.cfg.finite (seenHigh s vb))))
+
+/-- assigned vBuckets the file does not name -/
+def fileMissing (s : St) : List Vb := (vbRange s.cfg).filter fun vb => !s.store.has vb
+
+/-- the offset `openStream` never reads (the not-found guard fires first) -/
+def noOffset : Offset := Doc.zero.toOffset 0
+
+/-- start-up behind an existing file, line by line:
+    dcp.go Start / NewVBucketDiscovery            type switches (as in `start`)
+    checkpoint.go Load l.120-132                  load error, seqno error (as in `start`)
+    checkpoint.go Load l.138                      `!exist && …` is false: no failover-log query, no reset to latest
+    checkpoint.go Load l.173-197                  `loadFile`: the ahead-check over ALL stored vBuckets
+    stream.go Open l.236-246                      observers for exactly the vBuckets of the offset map
+    stream.go openAllStreams(vbIDs) l.348-364     walks the ASSIGNED vBuckets; openStream l.336-341
+                                                  `s.offsets.Load(vbID)` !exist → "vbID: %d not found on offset map"
+                                                  → "error while open stream" → panic;
+                                                  l.344 client.OpenStream error → the same panic
+    stream.go reopenStream l.168-188              as in `start` -/
+def startFile (c : Case) : Exit :=
+  if !knownMetadata c.metaType then .fail "invalid-metadata-type"
+  else if !knownMembership c.memberType then .fail "unknown-membership"
+  else if c.loadErr then .fail "load-error"
+  else if c.seq = .errPropagated then .fail "seqno-error"
+  else
+    let s := seenState c
+    match loadFile s with
+    | none => .fail "checkpoint-ahead"
+    | some offs =>
+      if (vbRange s.cfg).any (fun vb => !offs.has vb) then .fail "open-error"
+      else if (vbRange s.cfg).any c.openErr.contains then .fail "open-error"
+      else if (vbRange s.cfg).any (fun vb => c.ended.contains vb && c.reopenErr.contains vb) then .fail "reopen-gave-up"
+      else .running ((vbRange s.cfg).map fun vb => (vb, (offs.get? vb).getD noOffset))
+
+/-- start-up for every back end: the file back end with its file present, `start` otherwise
+    (couchbase back end; file back end without a file: `vbIds` decides, exactly `mdLoad`) -/
+def startAny (c : Case) : Exit := if fileExists c then startFile c else start c
+
+/-- the offset map (and with it the observer map, stream.go l.236-246) of the session `startAny` describes
+    when the file exists: one entry per vBucket of the FILE – also for vBuckets outside the assignment -/
+def fileSessionOffsets (c : Case) : AMap Offset := (loadFile (seenState c)).getD []
+
+/-- `deliversBeforeStop` for every back end.  An assigned vBucket the file does not name fails inside
+    `openStream` before anything is sent: that panic is prompt, whatever the server does for the siblings. -/
+def deliversBeforeStopAny (c : Case) (lateErr traffic : Bool) : Bool :=
+  if fileExists c then
+    match startFile c with
+    | .fail cls => cls == "open-error" && (fileMissing (seenState c)).isEmpty && lateErr && traffic &&
+                   (vbRange c.st.cfg).any (fun vb => !c.openErr.contains vb)
+    | .running _ => false
+  else deliversBeforeStop c lateErr traffic
+
 end GoDcp.Startup
